@@ -19,7 +19,7 @@ func VerifC10Concurrent() {
 	if verifrt.Thorough() {
 		workers, opsEach = 3, 2
 	}
-	maxCount := [...]uint{0, 1, 2}[verifrt.Choice(2)]
+	maxCount := [...]uint{1, 2}[verifrt.Choice(2)]
 	maxSize := uint(0)
 	if verifrt.Thorough() {
 		maxCount = [...]uint{0, 1, 2}[verifrt.Choice(3)]
@@ -77,5 +77,35 @@ func VerifC10Concurrent() {
 	st := ch.Stats()
 	verifrt.Assert(maxCount == 0 || uint(st.Count) <= maxCount, "final Count exceeds MaxCount")
 	verifrt.Assert(st.Size == 2*st.Count, "final Size is not the summed key+value lengths of live entries")
+	// after the concurrent phase the cache must still be a consistent bounded
+	// map: Count is the number of retrievable keys, and further insertions
+	// (which walk the usage list to evict) keep the accounting exact
+	live := 0
+	for k := byte(0); k < 2; k++ {
+		if got := ch.Get([]byte{k}); got != nil {
+			verifrt.Assert(len(got) == 1 && got[0]>>4 == k, "after the concurrent phase Get returns the value of another key")
+			live++
+		}
+	}
+	verifrt.Assert(live == st.Count, "after the concurrent phase Count differs from the number of retrievable keys")
+	for k := byte(2); k < 5; k++ {
+		ch.Set([]byte{k}, []byte{k<<4 | 1})
+		got := ch.Get([]byte{k})
+		if conf.EnableLRU {
+			// (without LRU eviction a full cache refuses new keys)
+			verifrt.Assert(got != nil && len(got) == 1 && got[0] == k<<4|1, "after the concurrent phase a freshly set key is not retrievable")
+		}
+		st = ch.Stats()
+		verifrt.Assert(maxCount == 0 || uint(st.Count) <= maxCount, "after the concurrent phase Count exceeds MaxCount")
+		verifrt.Assert(maxSize == 0 || uint(st.Size) <= maxSize, "after the concurrent phase Size exceeds MaxSize")
+		verifrt.Assert(st.Size == 2*st.Count, "after the concurrent phase Size is not the summed key+value lengths of live entries")
+		live = 0
+		for j := byte(0); j < 5; j++ {
+			if ch.Get([]byte{j}) != nil {
+				live++
+			}
+		}
+		verifrt.Assert(live == st.Count, "after the concurrent phase Count differs from the number of retrievable keys")
+	}
 	verifrt.Cover("done")
 }
